@@ -604,10 +604,12 @@ func main() {
 			"'represented by an equal node' uses Node.Equals in either direction",
 			"quick tier skips list pairs with 6 elements in total",
 		},
-		Plan:     plan,
-		Run:      run,
-		Replay:   replay,
-		Required: func(string) []string { return []string{"nodes:same-tag", "nodes:different-tag", "nil", "slices:equality", "slices:always", "slices:never"} },
+		Plan:   plan,
+		Run:    run,
+		Replay: replay,
+		Required: func(string) []string {
+			return []string{"nodes:same-tag", "nodes:different-tag", "nil", "slices:equality", "slices:always", "slices:never"}
+		},
 		Deadline: func(tier string) time.Duration {
 			if tier == "thorough" {
 				return 90 * time.Minute
